@@ -201,6 +201,7 @@ class _FileGen:
         self.generated = set()
         self.topdefs = [st[1] for st in f["body"] if st[0] == "def"]
         self.module_level = []  # module-level functions to emit after the body (source chunks)
+        self.inside_body = False  # generating code lexically inside the body callable
 
     def fresh(self, prefix):
         self.k += 1
@@ -212,7 +213,9 @@ class _FileGen:
         plain = [n for n in names if n not in self.topdefs]
         for n in names:
             if n in self.topdefs:
-                if is_body:
+                # the body and the closures written in it (anonymous blocks, call bodies, the defs inside them)
+                # call a top-level def "from the body": page arguments and current <% %> values are laid over
+                if is_body or self.inside_body:
                     e.w("%s = __rt.stub_overlay(%r, %r, __view)" % (n, self.uri, n))
                 else:
                     e.w("%s = __rt.stub(%r, %r, context)" % (n, self.uri, n))
@@ -272,13 +275,18 @@ class _FileGen:
                 else:
                     expr = "%s.%s(%s)" % (st[1], st[2], ", ".join("%s=(%s)" % (a, py) for a, py in st[3]))
                     args, body = None, st[4]
+                inner = [d for d in body if d[0] == "def"]
+                body = [x for x in body if x[0] != "def"]
+                for d in inner:
+                    self.nested_def(d)
                 e.w("def %s(%s):" % (fn, args or ""))
                 e.ind += 1
                 self.prologue(fn)
                 self.stmts(body, {"top": False})
                 e.w("return ''")
                 e.ind -= 1
-                e.w("__rt.set_next_caller({'body': %s})" % fn)
+                exports = "".join(", %r: %s" % (d[1], d[1]) for d in inner)
+                e.w("__rt.set_next_caller({'body': %s%s})" % (fn, exports))
                 e.w("try:")
                 e.w("    __rt.write(__str(%s))" % expr)
                 e.w("finally:")
@@ -331,7 +339,9 @@ class _FileGen:
             e.w("    try: __d[%r] = %s" % (n, n))
             e.w("    except __NameError: pass")
         e.w("    return context.overlay(__d) if __d else context")
+        self.inside_body = True
         self.callable_body("__body", f["body"], is_body=True)
+        self.inside_body = False
         e.ind -= 1
         # top-level defs and named blocks
         done = 0
